@@ -113,6 +113,7 @@ class P(b1.Plugin):
         draw_ord_fields(rng, td, mode)
         noise = [t for t in ("Debug", "Hash") if rng.random() < 0.35]
         td.type_spelling = True
+        td.own_discriminants = True
         gen.finalize_attrs(rng, td, noise)
         return td
 
